@@ -265,6 +265,9 @@ func TestWorker(t *testing.T) {
 			}
 			ts := sim.NewTapes(sp.Seed, run)
 			c := eng.Gen(sp.Prop, sp.Tier, ts)
+			if sp.JournalAll {
+				Journal(c, fmt.Sprintf("run %d", run))
+			}
 			out := safeRun(eng, c, dir)
 			res.Runs++
 			if os.Getenv("VERIF_DIGEST") != "" {
